@@ -6,10 +6,12 @@ Import ListNotations.
 (* one case = one operation history applied by the driver to
      kind 0: a fresh BufferReadWriter(cap), a fresh memory.File(cap) and an empty os.File
      kind 1: NewBufferFileReader(init) and a read-only os.File holding init
+     kind 2: two handles on one memory.File blob (Store.Create, Store.Open) and one os.File opened
+             twice; c_hs names the handle of each operation
    with the outputs each of them produced.  To keep the generated files small the driver writes
    `None` for an in-memory observation list that is identical to the os.File's list. *)
 Record case := mkcase {
-  c_kind : N; c_cap : N; c_init : list N; c_ops : list op;
+  c_kind : N; c_cap : N; c_init : list N; c_hs : list bool; c_ops : list op;
   c_buf_ : option (list out); c_mem_ : option (list out); c_rdr_ : option (list out); c_os : list out }.
 
 Definition same_or (o : option (list out)) (d : list out) : list out :=
@@ -27,7 +29,15 @@ Fixpoint idx_filter (f : case -> bool) (i : N) (cs : list case) : list N :=
 (* the in-memory implementations are compared with their models only inside the scope of the
    property (up to the first seek outside the written extent); the file specification is
    compared with the real os.File on the whole history *)
+Definition case_mismatch2 (c : case) : bool :=
+  let ops := combine (c_hs c) (c_ops c) in
+  let k := scope2_from pinit2 ops in
+  negb (Nat.eqb (length (c_hs c)) (length (c_ops c))) ||
+  negb (outs_eqb (snd (prun2 pinit2 ops)) (c_os c)) ||
+  negb (outs_eqb (firstn k (snd (mrun2 true (minit2 (N.to_nat (c_cap c))) ops))) (firstn k (c_mem c))).
+
 Definition case_mismatch (c : case) : bool :=
+  if (c_kind c =? 2)%N then case_mismatch2 c else
   let ops := c_ops c in
   let k := scope_from (pinit (c_init c)) ops in
   let cap := N.to_nat (c_cap c) in
@@ -39,6 +49,7 @@ Definition case_mismatch (c : case) : bool :=
      negb (outs_eqb (firstn k (snd (rrun (rinit (c_init c)) ops))) (firstn k (c_rdr c)))).
 
 Definition case_violation (c : case) : bool :=
+  if (c_kind c =? 2)%N then negb (C12_check2 (combine (c_hs c) (c_ops c)) (c_mem c) (c_os c)) else
   if (c_kind c =? 0)%N then
     negb (C12_check (c_init c) (c_ops c) (c_buf c) (c_os c)) ||
     negb (C12_check (c_init c) (c_ops c) (c_mem c) (c_os c))
